@@ -188,7 +188,7 @@ const fairLimit = 2000
 // hogLimit: a thread that issued this many non-blocking polls in a row without being
 // switched out is busy-waiting for somebody else (e.g. the poller re-fetching a
 // level-triggered event whose descriptor another thread is about to deregister).
-const hogLimit = 3
+const hogLimit = 2
 
 // HogHint is called by the syscall shim for every non-blocking poll (epoll_wait with
 // timeout 0); it reports true when the thread should yield (the caller then calls Yield).
